@@ -1,4 +1,5 @@
 import PgFdr.Proofs.C12
+import PgFdr.Proofs.C12Design
 import PgFdr.Proofs.C17
 import PgFdr.Proofs.CliQuant
 import PgFdr.Proofs.CliQuantDemo
@@ -629,5 +630,177 @@ private def t2 : Row :=
     leading := ["P1"], intensity := some 3, pep := .nan, silac := [], tmt := [2, 1, 1] }
 example : ∀ q ∈ [t1, t2], q.tmt.length = 3 * 1 := by decide +kernel
 example : tmtSums ["E1"] 1 (1/100) [t1, t2] = [9, 6, 2] := by decide +kernel
+
+/-! ## `--experimental_design_file` / `--file_list_file`: the experiment list in design order
+
+With a design `quant/maxquant.py:add_precursor_quants` stores `experimental_design["Experiment"].unique()`
+as the experiment list (design order, not sorted) and replaces experiment and fraction of every parsed row by
+the entry of its raw file.  `quantifyDesign` is that run (driver op `quant` with a `design`); it is
+`quantifyWithExps` — `quantifyWith` with the experiment list as a parameter — on the overridden rows.  The
+per-column theorems above (`intensity_recompute`, `total_is_sum_of_experiments`, `counts_recompute`,
+`idtype_recompute`, `tmt_recompute`, `evidence_ids_sorted_exact`, `identified_filter`, `attach_unique`,
+`no_row_twice`) hold for every experiment list `exps`, so they apply unchanged; the theorems below state the
+part that depends on the list: which list it is, that an experiment's columns sit at the experiment's position
+in THAT list (the list the header generators iterate over), and conservation. -/
+
+/-- the run without a design is the instance `exps = experiments rows` (sorted experiments of the parsed rows) -/
+theorem quantifyWith_is_exps (S : Nat) (rows : List Row) (groups : List (List String)) (level : Rat)
+    (ibaq : List (String × Nat)) :
+    quantifyWith S rows groups level ibaq = quantifyWithExps (experiments rows) S rows groups level ibaq := rfl
+
+/-- `output_groups` with the experiment list as a parameter: the reported experiment list is `exps` and every
+    column of every reported row is the loop function applied with `exps` -/
+theorem output_groups_exps (exps : List String) (S : Nat) (rows : List Row) (groups : List (List String))
+    (level : Rat) (ibaq : List (String × Nat)) :
+    (quantifyWithExps exps S rows groups level ibaq).experiments = exps ∧
+    (quantifyWithExps exps S rows groups level ibaq).groups =
+      ((List.range groups.length).filter (fun g => !(attached rows groups g).isEmpty)).map (fun g =>
+        let c := cutoffOf rows groups level
+        let quants := retain c (attached rows groups g)
+        { ids := groups.getD g []
+          quants := quants
+          counts := peptideCounts exps c quants
+          idType := idTypes exps c quants
+          total := totalOf S (intensities exps S c quants)
+          intens := intensities exps S c quants
+          nPeps := (groups.getD g []).map (nPepsOf ibaq)
+          ibaqTotal := totalOf S (intensities exps S c quants) / (leadingN ibaq (groups.getD g []) : Nat)
+          ibaq := (intensities exps S c quants).map (· / (leadingN ibaq (groups.getD g []) : Nat))
+          tmt := if nTmt rows > 0 then tmtSums exps (nTmt rows).toNat c quants else []
+          evidenceIds := evidenceIds c quants }) := ⟨rfl, rfl⟩
+
+/-- the run with a design: a design without lines is the run without a design; otherwise the names must be
+    pairwise different, every parsed row's raw file must have a line, `get_silac_channels` must accept the
+    column count, and the result is `quantifyWithExps` with the design's experiment list on the overridden rows -/
+theorem quantify_design_ok (design : List DesignLine) (rows : List (String × Row)) (groups : List (List String))
+    (level : Rat) (ibaq : List (String × Nat)) (o : Output) :
+    quantifyDesign design rows groups level ibaq = .ok o ↔
+      (design = [] ∧ quantify (rows.map (·.2)) groups level ibaq = .ok o) ∨
+      (design ≠ [] ∧ allDistinct (design.map (·.name)) = true ∧
+        ∃ rows' S, overrideRows design rows = .ok rows' ∧ silacChannels (nSilac rows') = .ok S ∧
+          o = quantifyWithExps (designExperiments design) S rows' groups level ibaq) := by
+  unfold quantifyDesign
+  by_cases hd : design = []
+  · subst hd
+    simp
+  · have he : design.isEmpty = false := by simpa using hd
+    rw [he]
+    simp only [Bool.false_eq_true, if_false, hd, false_and, false_or, ne_eq, not_false_eq_true, true_and]
+    by_cases hu : allDistinct (design.map (·.name)) = true
+    · simp only [hu, Bool.not_true, Bool.false_eq_true, if_false, true_and]
+      cases hr : overrideRows design rows with
+      | error e => simp
+      | ok rows' =>
+        cases hS : silacChannels (nSilac rows') with
+        | error e => simp [hS]
+        | ok S =>
+          simp only [Except.ok.injEq, exists_and_left, exists_eq_left', hS]
+          exact eq_comm
+    · have hu' : allDistinct (design.map (·.name)) = false := by simpa using hu
+      simp [hu']
+
+/-- the experiment list of a design (`experimental_design["Experiment"].unique().tolist()`): no duplicates,
+    exactly the experiments of the design lines — also those no evidence row belongs to —, in the order of
+    their FIRST line: the head line's experiment comes first, the rest is the list of the remaining lines
+    without it.  Nothing is sorted. -/
+theorem design_experiments_exact (d : List DesignLine) :
+    (designExperiments d).Nodup ∧
+    (∀ e, e ∈ designExperiments d ↔ ∃ l ∈ d, l.experiment = e) ∧
+    designExperiments [] = [] ∧
+    (∀ l t, designExperiments (l :: t) =
+      l.experiment :: (designExperiments t).filter (fun y => y != l.experiment)) :=
+  ⟨designExperiments_nodup d, mem_designExperiments d, rfl, designExperiments_cons⟩
+
+/-- the override: a successful run has replaced, row by row and in file order, experiment and fraction of
+    every row the parser yields by those of the (first) design line named like the row's raw file; rows
+    without proteins are untouched; no other field changes -/
+theorem design_override (d : List DesignLine) (rows : List (String × Row)) (rows' : List Row)
+    (h : overrideRows d rows = .ok rows') :
+    List.Forall₂ (fun x r' =>
+      ((prots x.2 = [] ∧ r' = x.2) ∨
+       (prots x.2 ≠ [] ∧ ∃ l ∈ d, l.name = x.1 ∧ d.find? (fun l => l.name == x.1) = some l ∧
+          r' = { x.2 with experiment := l.experiment, fraction := l.fraction })) ∧
+      r'.id = x.2.id ∧ r'.peptide = x.2.peptide ∧ r'.charge = x.2.charge ∧ r'.leading = x.2.leading ∧
+      r'.intensity = x.2.intensity ∧ r'.pep = x.2.pep ∧ r'.silac = x.2.silac ∧ r'.tmt = x.2.tmt) rows rows' :=
+  List.Forall₂.imp (fun x r' hx => ⟨overrideRow_ok d x r' hx, overrideRow_same d x r' hx⟩) (overrideRows_ok d rows rows' h)
+
+/-- "Per group and experiment the summed intensity …": with a duplicate-free experiment list (`experiments
+    rows` and `designExperiments d` are), the slots `i*(1+S)+k` — the columns written under the headers of the
+    `i`-th name of the list — hold the sum over the used precursors WHOSE EXPERIMENT IS THAT NAME, whatever
+    the order of the list -/
+theorem intensity_by_name (exps : List String) (hn : exps.Nodup) (S : Nat) (c : Rat) (quants : List Row)
+    (i k : Nat) (name : String) (hi : exps[i]? = some name) (hk : k ≤ S)
+    (hs : ∀ q ∈ quants, q.silac.length ≤ S) :
+    (intensities exps S c quants).getD (i * (1 + S) + k) 0 =
+      ((quants.filter (fun q => q.intensity.isSome && (isMbr q.pep || leCut q.pep c) &&
+          (q.experiment == name))).map
+        (fun q => match k with
+          | 0 => q.intensity.getD 0
+          | j + 1 => q.silac.getD j 0)).sum := by
+  have hil : i < exps.length := by
+    by_contra hcon
+    rw [List.getElem?_eq_none (by omega)] at hi
+    cases hi
+  rw [intensity_recompute exps S c quants i k hil hk hs]
+  have key := expIdx_beq_of_nodup exps hn i name hi
+  simp only [key]
+
+/-- … unique-peptide counts and identification type by experiment NAME, for a duplicate-free list -/
+theorem counts_idtype_by_name (exps : List String) (hn : exps.Nodup) (c : Rat) (quants : List Row)
+    (i : Nat) (name : String) (hi : exps[i]? = some name) :
+    (peptideCounts exps c quants).getD (i + 1) 0 =
+        ((quants.filter (fun q => used c q && (q.experiment == name))).map (·.peptide)).toFinset.card ∧
+    (idTypes exps c quants).getD i "" =
+      (if quants.any (fun q => (q.experiment == name) && leCut q.pep c) then "By MS/MS"
+       else if quants.any (fun q => (q.experiment == name) && isMbr q.pep) then "By matching"
+       else "") := by
+  have hil : i < exps.length := by
+    by_contra hcon
+    rw [List.getElem?_eq_none (by omega)] at hi
+    cases hi
+  have key := expIdx_beq_of_nodup exps hn i name hi
+  constructor
+  · rw [(counts_recompute exps c quants).2 i hil]
+    simp only [key]
+  · rw [idtype_recompute exps c quants i hil]
+    simp only [key]
+
+/-- conservation with a design: Σ of the `Intensity` column over the reported rows = Σ of the intensities of
+    the (overridden) evidence rows that enter a group, each once — no intensity is lost to an experiment
+    missing from the list, because every parsed row carries an experiment of the design -/
+theorem conservation_design (design : List DesignLine) (rows : List (String × Row)) (groups : List (List String))
+    (level : Rat) (ibaq : List (String × Nat)) (o : Output) (hd : design ≠ [])
+    (hrun : quantifyDesign design rows groups level ibaq = .ok o) :
+    ∃ rows', overrideRows design rows = .ok rows' ∧ o.experiments = designExperiments design ∧
+      ((∀ r ∈ parsed rows', (r.silac.length : Int) = nSilac rows') →
+        (o.groups.map (·.total)).sum =
+          (((parsed rows').filter (rowCounted rows' groups (cutoffOf rows' groups level))).map
+            (fun r => r.intensity.getD 0)).sum) := by
+  rcases (quantify_design_ok design rows groups level ibaq o).mp hrun with ⟨h0, -⟩ | ⟨-, -, rows', S, hr, hS, rfl⟩
+  · exact absurd h0 hd
+  · refine ⟨rows', hr, rfl, ?_⟩
+    intro huniform
+    exact conservation_exps _ S rows' groups level ibaq (silac_le_of_uniform rows' S hS huniform)
+      (overrideRows_experiment_mem design rows rows' hr)
+
+/-! non-vacuity: the example rows above with raw files, and a design that lists the experiments in
+    non-alphabetical order (`treated`, `control`, `alpha` — `alpha` without any row) -/
+
+private def exDesign : List DesignLine :=
+  [⟨"raw1", "treated", "1"⟩, ⟨"raw2", "treated", "2"⟩, ⟨"raw3", "control", "1.0"⟩, ⟨"raw4", "alpha", "1"⟩]
+private def exRaw : List (String × Row) := [("raw1", r1), ("raw3", r2), ("raw3", r3), ("raw2", r5), ("raw2", r4)]
+
+example : designExperiments exDesign = ["treated", "control", "alpha"] := by decide +kernel
+example : exDesign ≠ [] ∧ allDistinct (exDesign.map (·.name)) = true := by decide +kernel
+example : (match overrideRows exDesign exRaw with
+    | .ok rs => rs.map (fun r => (r.id, r.experiment, r.fraction))
+    | .error _ => []) =
+    [(4, "treated", "1"), (1, "control", "1.0"), (2, "control", "1.0"), (0, "treated", "2"), (3, "treated", "2")] := by
+  decide +kernel
+example : ∃ o, quantifyDesign exDesign exRaw exGroups (1/100) exIbaq = .ok o ∧
+    o.experiments = ["treated", "control", "alpha"] := ⟨_, rfl, by decide +kernel⟩
+example : (["treated", "control", "alpha"] : List String).Nodup ∧
+    (["treated", "control", "alpha"] : List String)[1]? = some "control" := by decide +kernel
+example : overrideRows exDesign [("raw9", r1)] = .error "raw_file_not_in_design" := by decide +kernel
 
 end PgFdr.C12
